@@ -678,3 +678,44 @@ Proof.
   split. rewrite lookup_remove, Z.eqb_refl. reflexivity.
   intros v N. rewrite lookup_remove. destruct (v =? u) eqn:E. lia. reflexivity.
 Qed.
+
+(* ------------------------------------------------------------------ converses: the gates are also sufficient *)
+Lemma otype_eqb_refl : forall t, otype_eqb t t = true.
+Proof. destruct t; reflexivity. Qed.
+
+Theorem use_key_ok_iff : forall cok s u p t b,
+  use_key cok s u p t b = OK <-> cok = true /\ p = true /\ usable s u t b.
+Proof.
+  intros cok s u p t b. split.
+  - intro H. destruct (use_key_gated cok s u p t b OK H (or_introl eq_refl)) as [P U].
+    split; [|split; assumption].
+    unfold use_key in H. destruct (lookup u (objs s)) as [ob|]; [|discriminate].
+    destruct (negb p); [discriminate|]. destruct (negb (otype_eqb (oty ob) t)); [discriminate|].
+    destruct (negb (is_active ob)); [discriminate|]. destruct (negb (has_bit (omask ob) b)); [discriminate|].
+    destruct cok; [reflexivity|discriminate].
+  - intros [C [P [ob [L [T [A B]]]]]]. subst cok p t. unfold use_key. rewrite L. simpl.
+    rewrite otype_eqb_refl. simpl. apply is_active_iff in A. rewrite A, B. reflexivity.
+Qed.
+
+Theorem activate_ok_iff : forall cok s u s',
+  step cok s (Activate u) = (OK, s') <->
+  (exists ob, lookup u (objs s) = Some ob /\ ost ob = Some PreActive) /\ s' = mkstore (set_state u Active (objs s)) (next_uid s).
+Proof.
+  intros cok s u s'. simpl. split.
+  - intro H. destruct (lookup u (objs s)) as [ob|]; [|discriminate]. destruct (ost ob) as [st|] eqn:S; [|discriminate].
+    destruct (negb (state_eqb st PreActive)) eqn:G; [discriminate|]. apply negb_false_iff, state_eqb_eq in G. subst st.
+    inversion H. split. exists ob. auto. reflexivity.
+  - intros [[ob [L S]] E]. rewrite L, S. simpl. subst s'. reflexivity.
+Qed.
+
+Theorem revoke_ok_inv : forall cok s u c s',
+  step cok s (Revoke u c) = (OK, s') ->
+  exists ob st, lookup u (objs s) = Some ob /\ ost ob = Some st /\ (c = KeyCompromise \/ st = Active).
+Proof.
+  intros cok s u c s' H. simpl in H.
+  destruct (lookup u (objs s)) as [ob|]; [|discriminate]. destruct (ost ob) as [st|] eqn:S; [|discriminate].
+  exists ob, st. split. reflexivity. split. exact S.
+  destruct (is_key_compromise c) eqn:C.
+  - left. destruct c; simpl in C; try discriminate; reflexivity.
+  - right. destruct (negb (state_eqb st Active)) eqn:G; [discriminate|]. apply negb_false_iff, state_eqb_eq in G. assumption.
+Qed.
